@@ -80,7 +80,8 @@ NewDmt(st, fs, dirs) == [d \in DOMAIN st.dmt |->
 (***************************************************************************)
 (* Enforcer._handle_deprecated_rule (C11), branch for branch               *)
 (***************************************************************************)
-OrBody(a, b) == IF a.k = "roles" /\ b.k = "roles" THEN RolesB(a.r \cup b.r) ELSE a
+OrBody(a, b) == IF a.k = "any" \/ b.k = "any" THEN AnyRule          \* the empty check string: always allow
+                ELSE IF a.k = "roles" /\ b.k = "roles" THEN RolesB(a.r \cup b.r) ELSE a
 HandleDeprecated(d, frules, enforceNew) ==
   IF d.dep.name # d.name /\ d.dep.name \in Names /\ frules[d.dep.name].k # "none"
      /\ frules[d.dep.name] # Alias(d.name)            \* not merely the alias rule:<new>
